@@ -916,11 +916,12 @@ func b2i(b bool) int {
 func (c *Ctx) c16BroadcastClasses() error {
 	texts := [][]byte{[]byte("ok\x80"), {0xff}, []byte("caf\xc3"), []byte("valid \xc3\xa9"), bytes.Repeat([]byte("long valid text "), 60), append(bytes.Repeat([]byte("long invalid text "), 60), 0xc0, 0x80)}
 	for ti, text := range texts {
-		for _, order := range [][]bool{{false, true, false, true}, {true, false, true, false}} {
+		for oi, order := range [][]bool{{false, true, false, true}, {true, false, true, false}, {false, true}} {
 			b := gws.NewBroadcaster(gws.OpcodeText, text)
-			valid := rfcValid(text)
+			checking := oi < 2 // the third pass: checking off - nothing is refused on encoding grounds
+			valid := rfcValid(text) || !checking
 			for k, pd := range order {
-				conn, mc, err := c16Conn(true, true, pd, &recHandler{})
+				conn, mc, err := c16Conn(true, checking, pd, &recHandler{})
 				if err != nil {
 					return err
 				}
@@ -933,7 +934,7 @@ func (c *Ctx) c16BroadcastClasses() error {
 					case <-time.After(5 * time.Second):
 					}
 				}
-				tag := fmt.Sprintf("one Broadcaster across compression classes text=%d order=%v call=%d deflate=%v", ti, order, k, pd)
+				tag := fmt.Sprintf("one Broadcaster across compression classes text=%d order=%v call=%d deflate=%v checking=%v", ti, order, k, pd, checking)
 				onWire := false
 				if fs, _, perr := parseFrames(mc.written()); perr == nil {
 					for _, f := range fs {
@@ -942,7 +943,7 @@ func (c *Ctx) c16BroadcastClasses() error {
 				}
 				switch {
 				case valid && (werr != nil || !onWire):
-					c.oracleFail(fmt.Sprintf("Broadcast of a valid text returned %v, message on the wire: %v [%s]", werr, onWire, tag), "c16-write-verdict", map[string]any{"tag": tag})
+					c.oracleFail(fmt.Sprintf("Broadcast of a text that must be sent (valid, or checking off) returned %v, message on the wire: %v [%s]", werr, onWire, tag), "c16-write-verdict", map[string]any{"tag": tag})
 				case !valid && (werr == nil || onWire):
 					c.oracleFail(fmt.Sprintf("Broadcast of a text that is not UTF-8 (%q) returned %v, message on the wire: %v [%s]", head(text, 24), werr, onWire, tag), "c16-write-verdict", map[string]any{"tag": tag})
 				}
